@@ -24,6 +24,23 @@ type EnvSpec struct {
 	Binds []Binding `json:"binds"`
 }
 
+// PadTags: struct tags are written with blanks and mixed case around their parts
+// (`yae:" name , Maybe "`), which the conversion must read like `yae:"name,maybe"`.
+var PadTags bool
+
+func yaeTag(name string, maybe bool) string {
+	if PadTags {
+		if maybe {
+			return `yae:" ` + name + ` , Maybe "`
+		}
+		return `yae:" ` + name + ` "`
+	}
+	if maybe {
+		return `yae:"` + name + `,maybe"`
+	}
+	return `yae:"` + name + `"`
+}
+
 func (e EnvSpec) Types() map[string]*gen.Ty {
 	m := map[string]*gen.Ty{}
 	for _, b := range e.Binds {
@@ -151,10 +168,7 @@ func GoType(t *gen.Ty) reflect.Type {
 	case gen.KObj:
 		fs := make([]reflect.StructField, len(t.Fields))
 		for i, f := range t.Fields {
-			tag := `yae:"` + f.Name + `"`
-			if f.T.K == gen.KMaybe {
-				tag = `yae:"` + f.Name + `,maybe"`
-			}
+			tag := yaeTag(f.Name, f.T.K == gen.KMaybe)
 			fs[i] = reflect.StructField{Name: fmt.Sprintf("F%d", i), Type: GoType(f.T), Tag: reflect.StructTag(tag)}
 		}
 		return reflect.StructOf(fs)
@@ -225,10 +239,7 @@ func ToGo(v *ref.V) reflect.Value {
 		sf := make([]reflect.StructField, len(v.OF))
 		for i, n := range v.OF {
 			fvals[i] = ToGo(v.OV[i])
-			tag := `yae:"` + n + `"`
-			if v.OV[i].T.K == gen.KMaybe {
-				tag = `yae:"` + n + `,maybe"`
-			}
+			tag := yaeTag(n, v.OV[i].T.K == gen.KMaybe)
 			sf[i] = reflect.StructField{Name: fmt.Sprintf("F%d", i), Type: fvals[i].Type(), Tag: reflect.StructTag(tag)}
 		}
 		st := reflect.New(reflect.StructOf(sf)).Elem()
